@@ -224,6 +224,15 @@ def transform(rng, kind, d=2, n_align=None):
         h[:d, d] = rng.uniform(-5, 5, d)
         h[d, :d] = rng.uniform(-0.002, 0.002, d)  # mildly projective, denominators stay near 1 on our points
         return mt.Homogeneous(h)
+    if kind == "NonSquareHomogeneous":
+        # a camera-like projection 3D -> 2D or an embedding 2D -> 3D: (n_dims_output + 1) x (n_dims + 1)
+        dout = 2 if d == 3 else 3
+        h = np.zeros((dout + 1, d + 1))
+        h[:dout, :d] = rng.normal(size=(dout, d))
+        h[:dout, d] = rng.uniform(-3, 3, dout)
+        h[dout, :d] = rng.uniform(-0.002, 0.002, d)
+        h[dout, d] = 1.0
+        return mt.Homogeneous(h)
     if kind == "SingularLinearHomogeneous":
         # a projective map whose linear block is singular (rank d-1) although the whole matrix is invertible and well conditioned:
         # the denominator stays near 1 on our points; the inverse matrix has a zero in its bottom-right corner
